@@ -18,6 +18,7 @@ BlockTab ==
    t1    |-> << D("TYPE", <<"@t1">>, "type one", FALSE, "obj", "") >>,
    t2    |-> << D("TYPE", <<"@t2">>, "", FALSE, "objref", "") >>,                 \* refers to @t1
    t3    |-> << D("TYPE", <<"@t3", "regex">>, "", FALSE, "rx", "") >>,
+   t4    |-> << D("TYPE", <<"@t4">>, "", FALSE, "objen", "") >>,                  \* uses the enum @e1
    e1    |-> << D("ENUM", <<"@e1">>, "enum one", FALSE, "en", "") >>,
    urlA  |-> << D("URL", <<"pa">>, "", FALSE, "", ""),
                 D("GET", <<>>, "get a", FALSE, "", ""), D("RESP", <<"any">>, "ok", FALSE, "", "200"),
